@@ -111,7 +111,7 @@ func buildCorpus(c *Ctx, nGen int, withRepo, withStd bool) ([]corpusFn, error) {
 	// the counted-loop family of the C12 suite (all forms, wrong-direction steps, nested)
 	if nGen > 0 {
 		var lsrc strings.Builder
-		lsrc.WriteString("package genpkg\n\n")
+		lsrc.WriteString("package genpkg\n\n" + loopTypeDecls)
 		for i := 0; i < 40*nGen; i++ {
 			pl, _ := genLoopSpec(r.Fork(), i).sources()
 			lsrc.WriteString(pl)
